@@ -2,6 +2,8 @@
 import CoapLite.Driver.Tbl
 import CoapLite.Driver.Bv
 import CoapLite.Driver.Pkt
+import CoapLite.Driver.Uint
+import CoapLite.Driver.Acc
 
 open CoapLite.Driver
 
@@ -10,6 +12,9 @@ def dispatch (line : String) : String :=
   | "TBL" :: rest => tbl rest
   | "BV" :: rest => bv rest
   | "PKT" :: rest => pkt rest
+  | "UINT" :: rest => uint rest
+  | "RESP" :: rest => resp rest
+  | "ACC" :: rest => acc rest
   | _ => "bad-domain"
 
 partial def loop (hin : IO.FS.Stream) (hout : IO.FS.Stream) (buf : String) (n : Nat) : IO Unit := do
